@@ -7,13 +7,23 @@ pub mod sym;
 #[cfg(kani)]
 pub mod c01;
 #[cfg(kani)]
+pub mod c04;
+#[cfg(kani)]
+pub mod c05;
+#[cfg(kani)]
 pub mod c06;
 #[cfg(kani)]
 pub mod c03;
 #[cfg(kani)]
+pub mod c08;
+#[cfg(kani)]
 pub mod c09;
 #[cfg(kani)]
 pub mod c10;
+#[cfg(kani)]
+pub mod c12;
+#[cfg(kani)]
+pub mod c15;
 #[cfg(kani)]
 pub mod c17;
 #[cfg(kani)]
